@@ -42,6 +42,12 @@ func c14Stamp(tag byte, n int) []byte {
 			b[i] = tag
 		case 7:
 			b[i] = '\n'
+		case 6:
+			if 'I' == tag {
+				b[i] = '\r' /* Input carries CR LF pairs (a DOS here-document, a binary upload). */
+				break
+			}
+			fallthrough
 		default:
 			b[i] = "0123456789"[(i/8/pow10(6-i%8))%10]
 		}
@@ -339,6 +345,14 @@ func c14(r *ev.Result, tier string) {
 			}
 			cases = append(cases, c14Case{N: n, FD: "stdout", ReadR: 8, Pause: p, Input: "empty", Status: 0})
 			cases = append(cases, c14Case{N: n, FD: "stderr", ReadR: 0, Pause: p, Input: "open", Status: 0})
+		}
+	}
+	/* Output that does not end in a newline (the stamps put one at every
+	eighth byte): an unterminated tail is output too. */
+	for _, n := range []int{5, 4099, 32771, 65541} {
+		for _, fd := range []string{"stdout", "stderr"} { /* (the merged stream is told apart by whole 8-byte records) */
+			cases = append(cases, c14Case{N: n, FD: fd, ReadR: 0, Input: "empty", Status: 0})
+			cases = append(cases, c14Case{N: n, FD: fd, ReadR: 0, Input: "open", Status: 3})
 		}
 	}
 	/* Large inputs through the child, back to back. */
